@@ -13,3 +13,19 @@ package inproc
 //@   before select#1 assert len(nmsg.Header) == 0 && len(nmsg.Body) == len(m.Header) + len(m.Body)
 //@   before select#1 assert eqseq(nmsg.Body[:len(m.Header)], m.Header) && eqseq(nmsg.Body[len(m.Header):], m.Body)
 //@   before select#1 assert arrof(nmsg.Body) != arrof(m.Body) && arrof(nmsg.Body) != arrof(m.Header)
+//@
+//@ func (*listener).Close
+//@   ghost had = has(listeners.byAddr, l.addr) at call:Lock#1
+//@   ghost owner = listeners.byAddr[l.addr] at call:Lock#1
+//@   before call:Unlock#1 assert had && owner != l ==> has(listeners.byAddr, l.addr) && listeners.byAddr[l.addr] == owner
+//@   before call:Unlock#1 assert had && owner == l ==> !has(listeners.byAddr, l.addr)
+//@   before call:Unlock#1 assert !had ==> !has(listeners.byAddr, l.addr)
+//@   before call:Unlock#1 assert l.closed
+//@
+//@ func (*listener).Listen
+//@   ghost had = has(listeners.byAddr, l.addr) at call:Lock#1
+//@   ghost wasClosed = l.closed at call:Lock#1
+//@   ensures wasClosed ==> result == mangos.ErrClosed
+//@   ensures !wasClosed && had ==> result == mangos.ErrAddrInUse
+//@   ensures !wasClosed && !had ==> isnil(result) && has(listeners.byAddr, l.addr) && listeners.byAddr[l.addr] == l
+//@   ensures !isnil(result) ==> has(listeners.byAddr, l.addr) == had
